@@ -84,7 +84,10 @@ impl McSystem {
             .borrow_mut()
             .push(LogEntry::McNodeCrashed { node: node.clone() });
         self.net.disconnect_node(&node);
-        for proc in self.nodes[&node].processes.keys() {
+        // processes are visited in name order to keep the trace deterministic
+        let mut procs: Vec<&String> = self.nodes[&node].processes.keys().collect();
+        procs.sort();
+        for proc in procs {
             for destruction_event in self.events.cancel_proc_events(proc) {
                 self.trace_handler.borrow_mut().push(destruction_event.to_log_entry());
             }
